@@ -7,6 +7,7 @@ import PM.Resolve
 import Proofs.Toks
 import Proofs.TokCore
 import Proofs.Resolve
+import Proofs.Range
 namespace PM.C09
 open PM
 
@@ -191,5 +192,230 @@ theorem sharedDepth_spec (doc : Node) (pos other : Nat) (r : RPos) (h : doc.reso
     · have : d = 0 := h0
       rw [this]; simpa [RPos.end_, RPos.start, R.node_zero] using ho
     · exact h2.2
+
+/-! ### block_range -/
+
+/-- how far `block_range` starts above the depth of `from`: one level when the parent of `from`
+    holds inline content or the two positions coincide (`d0 = depth(f) − brShrink`) -/
+def brShrink (S : Schema) (rf : RPos) (f t : Nat) : Nat :=
+  if (S.nodeType (S.tyOf rf.parent)).inlineContent || f == t then 1 else 0
+
+/-- the arguments may come in either order -/
+theorem blockRange_swap (S : Schema) (doc : Node) (f t : Nat) :
+    blockRange S doc f t = blockRange S doc t f := PM.blockRange_swap S doc f t
+
+/-- **block_range, depth**: for in-range `f ≤ t` the call never fails; a range `(d, s, e)` has the
+    largest depth `d ≤ d0 = depth(f) − brShrink` at which the content of `f`'s depth-`d` ancestor
+    still contains `t`; the answer is `None` exactly when no depth `≤ d0` does, which happens only
+    for `depth(f) = 0` with `brShrink = 1` (i.e. `d0 < 0`) -/
+theorem blockRange_depth_spec (S : Schema) (doc : Node) (f t : Nat) (hft : f ≤ t)
+    (rf : RPos) (hf : doc.resolve f = some rf) (ht : t ≤ fsize doc.kids) :
+    let c := brShrink S rf f t
+    (∃ x, blockRange S doc f t = .ok x) ∧
+    (∀ d s e, blockRange S doc f t = .ok (some (d, s, e)) →
+      d ≤ rf.depth ∧ d + c ≤ rf.depth ∧ rf.start d ≤ t ∧ t ≤ rf.end_ d ∧
+      ∀ k, d < k → k + c ≤ rf.depth → ¬ t ≤ rf.end_ k) ∧
+    (blockRange S doc f t = .ok none ↔ ∀ k, k + c ≤ rf.depth → ¬ t ≤ rf.end_ k) ∧
+    (blockRange S doc f t = .ok none ↔ rf.depth = 0 ∧ c = 1) := by
+  intro c
+  obtain ⟨rt, hrt⟩ := resolve_isSome doc t ht
+  obtain ⟨m1, m2⟩ := blockRange_master S hf hrt hft
+  have hc : c = if ((S.nodeType (S.tyOf rf.parent)).inlineContent || f == t) = true then 1 else 0 := rfl
+  rw [← hc] at m1 m2
+  have hc1 : c ≤ 1 := by rw [hc]; split <;> omega
+  rcases Nat.lt_or_ge rf.depth c with hlt | hge
+  · have h := m1 hlt
+    refine ⟨⟨_, h⟩, ?_, ?_, ?_⟩
+    · intro d s e h'; rw [h] at h'; simp at h'
+    · exact ⟨fun _ k hk => by omega, fun _ => h⟩
+    · exact ⟨fun _ => by omega, fun _ => h⟩
+  · obtain ⟨d, h1, h2, h3, h4, h5⟩ := m2 hge
+    have R := resolve_resolved hf
+    refine ⟨⟨_, h5⟩, ?_, ?_, ?_⟩
+    · intro d' s e h'
+      rw [h5] at h'
+      simp only [Except.ok.injEq, Option.some.injEq, Prod.mk.injEq] at h'
+      obtain ⟨rfl, _, _⟩ := h'
+      have E := R.entry d (by omega)
+      have := E.pos_eq; have := E.pos_le
+      exact ⟨by omega, h1, by omega, h2, h3⟩
+    · rw [h5]
+      constructor
+      · intro h; simp at h
+      · intro h; exact (h d h1 h2).elim
+    · rw [h5]
+      constructor
+      · intro h; simp at h
+      · intro h; omega
+
+/-- **block_range, bounds**: `s`/`e` are `from.before(d+1)`/`to.after(d+1)`: `f` itself when `d` is
+    the depth of `f`, else the position before `f`'s depth-`d+1` ancestor; `t` itself when `d` is
+    the depth of `t`, else the position after `t`'s depth-`d+1` ancestor.  Both positions have the
+    same depth-`d` ancestor, the range `[s, e)` covers `[f, t)`, lies inside that ancestor's content
+    and its tokens are balanced: as many opens as closes and no prefix closes more than it opened. -/
+theorem blockRange_bounds_spec (S : Schema) (doc : Node) (f t : Nat) (hft : f ≤ t)
+    (rf rt : RPos) (hf : doc.resolve f = some rf) (ht : doc.resolve t = some rt)
+    (d s e : Nat) (h : blockRange S doc f t = .ok (some (d, s, e))) :
+    d ≤ rf.depth ∧ d ≤ rt.depth ∧ rt.node d = rf.node d ∧ rt.start d = rf.start d ∧
+    rf.before (d + 1) = some s ∧ rt.after (d + 1) = some e ∧
+    s = (if d = rf.depth then f else rf.start (d + 1) - 1) ∧
+    e = (if d = rt.depth then t else rt.end_ (d + 1) + 1) ∧
+    rf.start d ≤ s ∧ s ≤ f ∧ t ≤ e ∧ e ≤ rf.end_ d ∧
+    window (ftoks doc.kids) s (e - s) = window (ftoks (rf.node d).kids) (s - rf.start d) (e - s) ∧
+    balance (window (ftoks doc.kids) s (e - s)) = 0 ∧
+    ∀ k, 0 ≤ balance ((window (ftoks doc.kids) s (e - s)).take k) := by
+  have Rf := resolve_resolved hf
+  obtain ⟨_, m2⟩ := blockRange_master S hf ht hft
+  obtain ⟨_, hsome, _, _⟩ := blockRange_depth_spec S doc f t hft rf hf (resolve_resolved ht).le
+  obtain ⟨hd, hdc, _, hin, _⟩ := hsome d s e h
+  obtain ⟨d', _, _, _, hdt', h5⟩ := m2 (show _ ≤ rf.depth from Nat.le_trans (Nat.le_add_left _ d) hdc)
+  rw [h5] at h
+  simp only [Except.ok.injEq, Option.some.injEq, Prod.mk.injEq] at h
+  obtain ⟨rfl, hs, he⟩ := h
+  obtain ⟨w1, w2, w3, w4, w5, w6, w7, w8, w9, w10⟩ := blockRange_window hf ht hft d' hd hin hdt'
+  rw [hs] at w3 w4 w7 w9
+  rw [he] at w5 w6 w8 w10
+  have hbef : rf.before (d' + 1) = some s := by
+    rw [← hs]; unfold RPos.before
+    by_cases hdd : d' = rf.depth
+    · simp [hdd, Rf.pos_eq]
+    · have : d' + 1 ≤ rf.depth := by omega
+      simp [hdd, this]
+  have haft : rt.after (d' + 1) = some e := by
+    rw [← he]; unfold RPos.after
+    by_cases hdd : d' = rt.depth
+    · simp [hdd, (resolve_resolved ht).pos_eq]
+    · have : d' + 1 ≤ rt.depth := by omega
+      simp [hdd, this]
+  have hwin : window (ftoks doc.kids) s (e - s) =
+      window (ftoks (rf.node d').kids) (s - rf.start d') (e - s) := by
+    have hK := Rf.window_kids d' hd
+    have := window_sub (ftoks doc.kids) _ (rf.start d') _ (s - rf.start d') (e - rf.start d') hK
+      (by rw [Resolved.end_eq] at w6; omega)
+    rw [show rf.start d' + (s - rf.start d') = s by omega,
+      show e - rf.start d' - (s - rf.start d') = e - s by omega] at this
+    exact this
+  have hbal := balanced_slice (ftoks (rf.node d').kids) (s - rf.start d') (e - rf.start d')
+    (by omega) w9 w10 (balance_prefix_nonneg _)
+  rw [show e - rf.start d' - (s - rf.start d') = e - s by omega] at hbal
+  refine ⟨hd, hdt', w1, w2, hbef, haft, ?_, ?_, w3, w4, w5, w6, hwin, ?_, ?_⟩
+  · by_cases hdd : d' = rf.depth
+    · simp only [hdd, if_true] at hs ⊢; exact hs.symm
+    · simp only [hdd, if_false]
+      have := w7 (by omega); omega
+  · by_cases hdd : d' = rt.depth
+    · simp only [hdd, if_true] at he ⊢; exact he.symm
+    · simp only [hdd, if_false]
+      exact w8 (by omega)
+  · rw [hwin]; exact hbal.1
+  · rw [hwin]; exact hbal.2
+
+/-- **block_range, children**: when neither end sits inside a text node at depth `d` (always so
+    below the ends' own depth), the range is exactly the children `start_index .. end_index` of the
+    common depth-`d` ancestor: `start_index = from.index(d)`, `end_index = to.index_after(d)` -/
+theorem blockRange_children_spec (S : Schema) (doc : Node) (f t : Nat) (hft : f ≤ t)
+    (rf rt : RPos) (hf : doc.resolve f = some rf) (ht : doc.resolve t = some rt)
+    (d s e : Nat) (h : blockRange S doc f t = .ok (some (d, s, e)))
+    (hF : d = rf.depth → rf.textOffset = 0) (hT : d = rt.depth → rt.textOffset = 0) :
+    rf.index d ≤ rt.indexAfter d ∧
+    s = rf.posAtIndex (rf.index d) d ∧ e = rf.posAtIndex (rt.indexAfter d) d ∧
+    window (ftoks doc.kids) s (e - s) =
+      ftoks (((rf.node d).kids.take (rt.indexAfter d)).drop (rf.index d)) := by
+  obtain ⟨_, m2⟩ := blockRange_master S hf ht hft
+  obtain ⟨_, hsome, _, _⟩ := blockRange_depth_spec S doc f t hft rf hf (resolve_resolved ht).le
+  obtain ⟨hd, hdc, _, hin, _⟩ := hsome d s e h
+  obtain ⟨b1, b2, b3, b4, b5, b6, b7, b8, b9, b10, b11, b12, hwin, _⟩ :=
+    blockRange_bounds_spec S doc f t hft rf rt hf ht d s e h
+  obtain ⟨d', _, _, _, hdt', h5⟩ := m2 (show _ ≤ rf.depth from Nat.le_trans (Nat.le_add_left _ d) hdc)
+  rw [h5] at h
+  simp only [Except.ok.injEq, Option.some.injEq, Prod.mk.injEq] at h
+  obtain ⟨rfl, hs, he⟩ := h
+  obtain ⟨c1, c2, c3⟩ := blockRange_children hf ht hft d' hd hin hdt' hF hT
+  rw [hs] at c1
+  rw [he] at c2
+  refine ⟨c3, c1, c2, ?_⟩
+  rw [hwin, window, c1, c2]
+  have := ftoks_children (rf.node d').kids _ _ c3
+  rw [show rf.start d' + fsize ((rf.node d').kids.take (rf.index d')) - rf.start d' =
+      fsize ((rf.node d').kids.take (rf.index d')) by omega,
+    show rf.start d' + fsize ((rf.node d').kids.take (rt.indexAfter d')) -
+        (rf.start d' + fsize ((rf.node d').kids.take (rf.index d'))) =
+      fsize ((rf.node d').kids.take (rt.indexAfter d')) -
+        fsize ((rf.node d').kids.take (rf.index d')) by omega]
+  exact this
+
+/-- out-of-range positions: `resolve` raises, so does `block_range` -/
+theorem blockRange_out_of_range (S : Schema) (doc : Node) (f t : Nat)
+    (h : fsize doc.kids < f ∨ fsize doc.kids < t) : blockRange S doc f t = .error .valueError := by
+  unfold blockRange
+  rcases h with h | h
+  · have : doc.resolve f = none := by simp [Node.resolve, Nat.not_le.mpr h]
+    rw [this]
+  · have : doc.resolve t = none := by simp [Node.resolve, Nat.not_le.mpr h]
+    rw [this]; cases doc.resolve f <;> rfl
+
+/-! ### text_between with block separator and leaf text -/
+
+/-- **no separator, no leaf text**: the callback run over the visited nodes gives `textBetween`
+    (hence, by `textBetween_spec`, the text units of the tokens in the range) -/
+theorem textBetweenSep_nosep (S : Schema) (kids : List Node) (f t : Nat) :
+    textBetweenSep S kids f t [] (fun _ => []) = textBetween kids f t := by
+  unfold textBetweenSep
+  rw [tbFold_nosep S f t kids f t 0 0 [] (by omega) (by simp)]
+  simp
+
+/-- **separators and leaf text only add**: for every separator and leaf text the plain text of the
+    range is a subsequence of the result, and the result is longer by the separator times some
+    `k ≤` number of visited block nodes plus the leaf texts of the visited leaves -/
+theorem textBetweenSep_sublist (S : Schema) (kids : List Node) (f t : Nat) (sep : List Nat)
+    (leafText : Node → List Nat) :
+    (textBetween kids f t).Sublist (textBetweenSep S kids f t sep leafText) ∧
+    ∃ k, k ≤ (nodesBetween kids f t 0 0).countP (blockVisit S) ∧
+      (textBetweenSep S kids f t sep leafText).length =
+        (textBetween kids f t).length + sep.length * k +
+          ((nodesBetween kids f t 0 0).map (leafUnits leafText)).sum := by
+  obtain ⟨o0, o1, b', k, h1, h2, h3, h4, h5⟩ :=
+    tbFold_compare S f t sep leafText (nodesBetween kids f t 0 0) [] [] true
+  have h0 := textBetweenSep_nosep S kids f t
+  unfold textBetweenSep at h0 ⊢
+  rw [h1] at h0
+  rw [h2]
+  simp only [List.nil_append] at h0 ⊢
+  rw [← h0]
+  exact ⟨h3, k, h4, h5⟩
+
+/-- **separators alone**: without leaf text the result has the plain text as a subsequence and is
+    longer by exactly `k` separators, `k ≤` number of visited block nodes -/
+theorem textBetweenSep_text_units (S : Schema) (kids : List Node) (f t : Nat) (sep : List Nat) :
+    (textBetween kids f t).Sublist (textBetweenSep S kids f t sep (fun _ => [])) ∧
+    ∃ k, k ≤ (nodesBetween kids f t 0 0).countP (blockVisit S) ∧
+      (textBetweenSep S kids f t sep (fun _ => [])).length =
+        (textBetween kids f t).length + sep.length * k := by
+  obtain ⟨h1, k, h2, h3⟩ := textBetweenSep_sublist S kids f t sep (fun _ => [])
+  refine ⟨h1, k, h2, ?_⟩
+  rw [h3]
+  have : ((nodesBetween kids f t 0 0).map (leafUnits (fun _ => []))).sum = 0 := by
+    generalize nodesBetween kids f t 0 0 = vis
+    induction vis with
+    | nil => rfl
+    | cons x r ih =>
+      have hx : leafUnits (fun _ => []) x = 0 := by
+        unfold leafUnits; split <;> rfl
+      simp [hx, ih]
+  omega
+
+/-- the code's result, when it returns one, is the unit-level result -/
+theorem textBetweenSepRes_ok (S : Schema) (kids : List Node) (f t : Nat) (sep : List Nat)
+    (leafText : Node → List Nat) (u : List Nat)
+    (h : textBetweenSepRes S kids f t sep leafText = .ok u) :
+    u = textBetweenSep S kids f t sep leafText ∧ t ≤ fsize kids := by
+  unfold textBetweenSepRes at h
+  split at h
+  · simp at h
+  · split at h
+    · simp at h
+    · rename_i hle
+      simp only [Except.ok.injEq] at h
+      exact ⟨h.symm, by omega⟩
 
 end PM.C09
